@@ -2,14 +2,15 @@
 Driver for the solver-wrapper model (C15).  Scalars are complex rationals, one token `p/q` or `p/q,r/s`.
 
 request:
-  solve <lu|gmres|cg> <strong 0|1> <rr 0|1> <rc 0|1> <fac 0|1> <tol> <restart|-> <maxiter|->
+  solve <mul|lu|gmres|cg> <strong 0|1> <rr 0|1> <rc 0|1> <fac 0|1> <tol> <restart|-> <maxiter|->
         <nspaces> ndof*  <nmass> (dom dual MAT)*  <ninv> (dom dual MAT)*
         ( S dom rng dual MAT | B m n dom*n rng*m dual*m MAT*(m*n) )
         ( one GF | many k GF* )           GF := (c|p) space dual VEC
         X VEC  INFO int  CALLS k (SCALAR* for gmres | VEC* for cg)
   MAT := rows cols entries(row major), VEC := len entries
 answer:
-  lu    : ok lu (solve MAT | fac) V VEC R k GF*
+  mul   : ok mul R k GF*
+  lu    : ok lu (solve MAT | fac) V VEC R k GF* F MAT   (F = matrix handed to lu_factor by compute_lu_factors)
   gmres/cg: ok it MAT V VEC T tol restart maxiter R k GF* INFO i RES (-|k rat*) CNT (-|n)
           (MAT = the operator handed to SciPy applied to the unit vectors; RES = squared norms)
   err value-error | err other-error | err bad-op
@@ -213,15 +214,28 @@ def request : P String := do
   expect "CALLS"
   let k ← nat
   let cx := t.cx
-  if fn = "lu" then
-    let ext : DirectExt Cx Unit := ⟨fun _ _ => x, fun _ => (), fun _ _ => x⟩
-    let f : Option Unit := if fac then some () else none
-    match lu ext cx A b f, luCall (F := Unit) cx A b f with
+  if fn = "mul" then
+    match A, b with
+    | .single A, .one f =>
+      match A.mulGF cx f with
+      | .ok r => pure ("ok mul R " ++ showAnyGF (.one r))
+      | .error e => pure (showErr e)
+    | .blocked A, .many fs =>
+      match A.mulGFs cx fs with
+      | .ok r => pure ("ok mul R " ++ showAnyGF (.many r))
+      | .error e => pure (showErr e)
+    | _, _ => pure "err bad-op"
+  else if fn = "lu" then
+    -- the "factorisation" is the matrix itself, so that the matrix `compute_lu_factors` hands to
+    -- `lu_factor` can be printed
+    let ext : DirectExt Cx (Mat Cx) := ⟨fun _ _ => x, fun M => M, fun _ _ => x⟩
+    let f : Option (Mat Cx) := if fac then some [] else none
+    match lu ext cx A b f, luCall cx A b f with
     | .ok r, some call =>
       let c := match call with
         | .solve M v => "solve " ++ showMat M ++ " V " ++ showVec v
         | .luSolve _ v => "fac V " ++ showVec v
-      pure ("ok lu " ++ c ++ " R " ++ showAnyGF r)
+      pure ("ok lu " ++ c ++ " R " ++ showAnyGF r ++ " F " ++ showMat (computeLuFactors ext A))
     | .error e, _ => pure (showErr e)
     | _, _ => pure "err bad-op"
   else if fn = "gmres" || fn = "cg" then
